@@ -54,6 +54,12 @@ def behaviours(server_json):
         ("201-json", dict(behaviour="ok", body=good, status=201), "success"),
         ("200-json-text-plain", dict(behaviour="ok", body=good, status=200, content_type="text/plain"), "success"),
         ("200-json-bom", dict(behaviour="ok", body=b"\xef\xbb\xbf" + good, status=200), "either"),
+        # the body is UTF-8 JSON whatever charset the header claims (RFC 8259): the text must arrive unchanged
+        ("200-json-charset-latin1", dict(behaviour="ok", body=json.dumps(server_json, ensure_ascii=False).encode("utf-8"), status=200, content_type="application/json; charset=ISO-8859-1"), "success"),
+        ("200-json-charset-sjis", dict(behaviour="ok", body=json.dumps(server_json, ensure_ascii=False).encode("utf-8"), status=200, content_type="application/json;charset=Shift_JIS"), "success"),
+        ("200-json-charset-utf8", dict(behaviour="ok", body=json.dumps(server_json, ensure_ascii=False).encode("utf-8"), status=200, content_type="application/json; charset=utf-8"), "success"),
+        # JSON-shaped, but a string contains bytes that are not UTF-8: not JSON
+        ("200-invalid-utf8", dict(behaviour="ok", body=good[:-1].replace(b'"__schema"', b'"__schema"', 1)[:20] + b'' + good[20:].replace(b'"queryType"', b'"x\xff\xfe":1,"queryType"', 1), status=200), "failure"),
         ("200-garbage", dict(behaviour="ok", body=b"<html>not json</html>", status=200, content_type="text/html"), "failure"),
         ("200-empty", dict(behaviour="ok", body=b"", status=200), "failure"),
         ("200-truncated-json", dict(behaviour="ok", body=good[: len(good) // 2], status=200), "failure"),
@@ -99,6 +105,8 @@ def main(run):
     qdocs = docs()
     schema = gen_schema(rng, n_input=2)
     server_json = json.loads(render_json(schema, wrapped=True, builtins="scalars"))
+    # non-ASCII text in the reply (descriptions are free text)
+    server_json["data"]["__schema"]["types"][0]["description"] = "Beschreibung mit Umlauten äöü, ☃ und 日本語"
     sdl_path = os.path.join(root, "server.graphql")
     open(sdl_path, "w").write(render_sdl(schema))
     doc, _ = gen_document(schema, rng)
